@@ -562,3 +562,29 @@ func specListUnalignedXR(ps []Packet) bool {
 	}
 	return false
 }
+
+// specFramesDecodeAlone (C06): the datagram raw splits at the header length fields into len(ps) frames, and
+// decoding frame k on its own gives a packet of the same Go type and the same encoding as ps[k] (decoding is
+// local to each packet's octets).
+func specFramesDecodeAlone(raw []byte, ps []Packet) bool {
+	off := 0
+	for k := 0; k < len(ps); k++ {
+		if off+4 > len(raw) {
+			return false
+		}
+		n := 4 * (int(be16(raw, off+2)) + 1)
+		if off+n > len(raw) {
+			return false
+		}
+		frame := append([]byte(nil), raw[off:off+n]...)
+		one, err := Unmarshal(frame)
+		if err != nil || len(one) != 1 || !specSameWire(one, ps[k:k+1]) {
+			return false
+		}
+		off += n
+	}
+	return off == len(raw)
+}
+
+// lemmaDatagram (C06, C01): all-or-nothing, splitting at the length fields, locality.
+func lemmaDatagram(raw []byte) (ps []Packet, err error) { return Unmarshal(raw) }
